@@ -95,7 +95,7 @@ example :
      quotes in text, unknown `&name;` …).  That needs translation invariance of the whole parser.
    * A prologue: the run in front of the root consists of white space and comments only; processing
      instructions mixed with comments in front of the root are not covered here
-     (`pi_prologue_skipped_partial` has white space between the instructions, no comments).
+     (`pi_prologue_skipped` has white space between the instructions, no comments).
    * Trees outside `wf`: two text nodes separated only by comments (`x<!--c-->y` parses to two adjacent
      texts, which `toString` would merge) and blank texts.
    * Quirks of the attribute loop (stray tokens inside a tag are ignored) are not decorations. -/
